@@ -267,7 +267,7 @@ def replay_edge(j, cname, e):
     return mode
 
 
-def replay_path(j, cname, h):
+def replay_path(j, cname, h, fresh=False):
     """One behaviour of the model driven through ONE live object (finds hidden state)."""
     x = inject(cname, h[0]["post"])
     pre = h[0]["post"]
@@ -303,6 +303,19 @@ def replay_path(j, cname, h):
         else:
             j.ok((cname, "path", call["op"], features(call, len(pre))))
         pre = post
+    if fresh and not diverged and len(x.data) > 0:
+        # after the whole behaviour the live object is observationally equivalent to a fresh object with the same
+        # contents (no member answers from values the object held earlier)
+        import sharelib
+        y = inject(cname, [1] * len(x.data))
+        y.data = [np.array(a, copy=True) for a in x.data]
+        name = sharelib._differs(x, y)
+        cidf = (cname, "path", "fresh-equivalence")
+        if name:
+            j.fail("%s|%s.%s|%s;after-behaviour|differs-from-fresh-object-with-same-values" % (PID, cname, name, cname),
+                   {"kind": "path-end", "cls": cname, "member": name, "program": [s_["call"] for s_ in h[1:]][-8:]}, case_id=cidf)
+        else:
+            j.ok(cidf)
     return diverged
 
 
@@ -420,7 +433,7 @@ def run(tier):
     if len(sims) < nsim // 2:
         raise MachineryError("simulation produced %d behaviours" % len(sims))
     for k, h in enumerate(sims):
-        replay_path(j, classes_all[k % len(classes_all)], h)
+        replay_path(j, classes_all[k % len(classes_all)], h, fresh=True)
     j.sample({"behaviour(first 6 steps)": sims[0][:6]})
 
     # 5. Direction B: recorded list traces judged by TLC
